@@ -1102,16 +1102,30 @@ class ExecComp(ExplicitComponent):
                 # solve with complex input value
                 self._exec()
 
+                by_column = []
                 for u in out_names:
                     if (u, inp) in partials:
                         subval, subval_is_scalar = vdict[u]
-                        if subval_is_scalar:
+                        if psize > 1 and subval.size == 1:
+                            # (size-1 output, array input) is declared dense even with has_diag_partials,
+                            # so it needs one perturbation per input element (done below).
+                            by_column.append(u)
+                        elif subval_is_scalar:
                             partials[u, inp] = imag(subval * inv_stepsize)
                         else:
                             partials[u, inp] = imag(subval * inv_stepsize).ravel()
 
                 # restore old input value
                 ival -= step
+
+                if by_column:
+                    for i, idx in enumerate(array_idx_iter(ival.shape)):
+                        ival[idx] += step
+                        self._exec()
+                        for u in by_column:
+                            subval, _ = vdict[u]
+                            partials[u, inp][:, i] = imag(subval * inv_stepsize).ravel()
+                        ival[idx] -= step
             else:
                 for i, idx in enumerate(array_idx_iter(ival.shape)):
                     # set a complex input value
